@@ -10,7 +10,7 @@ from ..driver import analysis_check, standard_items
 
 
 def main(tier, seed):
-    items = standard_items(seed, tier, 35, 300, bench_quick=10)
+    items = standard_items(seed, tier, 14, 300, bench_quick=5, corpus_quick=14)
     variants = [("", {}), ("-c2a", {"cond2arithm": True}), ("-tc", {"transform_categoricals": True})]
     if tier != "quick":
         variants.append(("-c2a-tc", {"cond2arithm": True, "transform_categoricals": True}))
